@@ -31,6 +31,8 @@ def modelled(inst, t):
         return "point swaps (initial sets with more than n+1 points) are not in Dfols.tla"
     if any(e["ev"] in ("Raise", "Hang") for e in t["ev"]):
         return "the run did not return"
+    if any(e["ev"] == "Return" and e.get("inputerr") for e in t["ev"]):
+        return "input error (no run)"
     if t["cfg"].get("parallel"):
         return "parallel initialisation"
     for k in up:
@@ -45,6 +47,18 @@ def modelled(inst, t):
 
 def snapshots(t):
     ev = t["ev"]
+    # radius level (see DfolsCtl.tla, RhoMatches): K minus the reductions of rho in the current run, -1 once rho has reached rhoend
+    runs_red, cur = [], 0
+    for e in ev:
+        if e["ev"] == "RunBegin" or (e["ev"] == "SoftEnd" and e.get("ok")):
+            runs_red.append(cur)
+            cur = 0
+        elif e["ev"] == "ReduceRho":
+            cur += 1
+    runs_red.append(cur)
+    K = max(runs_red) + 1
+    rl = K
+    insoft = False
     snaps = []
     nf = nx = 0
     m = dict(EMPTY_M)
@@ -52,12 +66,21 @@ def snapshots(t):
     dirty = False
     last = None
 
+    prev_objs = []
+
     def flush():
-        nonlocal dirty, vals, last
+        nonlocal dirty, vals, last, prev_objs
         if dirty:
-            cur = (nf, nx, json.dumps(m, sort_keys=True))
-            snaps.append(dict(kind="state", nf=nf, nx=nx, m=dict(m), v=sorted(vals)))
-            last = cur
+            # values the environment produced on the way here: every sample's objective (Call events) and whatever is new in the model projection
+            cur_objs = list(m["obj"]) + ([m["objsave"]] if m["hassave"] else [])
+            rest = list(prev_objs)
+            for v in cur_objs:
+                if v in rest:
+                    rest.remove(v)
+                else:
+                    vals.add(int(v))
+            snaps.append(dict(kind="state", nf=nf, nx=nx, m=dict(m), v=sorted(vals), rl=rl))
+            prev_objs = cur_objs
             vals = set()
             dirty = False
     for e in ev:
@@ -68,6 +91,17 @@ def snapshots(t):
             flush()
         if name == "RunBegin":
             m = dict(EMPTY_M)
+            prev_objs = []
+            rl = K
+        elif name == "SoftBegin":
+            insoft = True
+        elif name in ("EvalBegin", "SoftEnd"):
+            insoft = False
+        elif name == "SavePoint" and insoft:
+            rl = K                  # an admitted soft restart saves the incumbent and resets the radii
+        elif name == "ReduceRho":
+            rl = -1 if e["rho"] == e["rhoendc"] else (rl - 1 if rl > 0 else rl)
+            dirty = True
         elif name == "LogEval":
             nf, nx = int(e["i"]), int(e["j"])
             dirty = True
@@ -75,44 +109,56 @@ def snapshots(t):
             vals.add(int(e["f"]))
         if name in MODEL and "m" in e:
             pm = e["m"]
+            if name in ("ChangePoint", "AddPoint") and "k" in e and 0 <= int(e["k"]) < len(pm["obj"]):
+                vals.add(int(pm["obj"][int(e["k"])]))       # the first sample's objective (before further samples are averaged in)
+            elif name == "AddPoint":
+                vals.add(int(pm["obj"][-1]))
             m = {k: pm[k] for k in MKEYS}
-            vals.update(int(v) for v in pm["obj"])
-            if pm["hassave"]:
-                vals.add(int(pm["objsave"]))
             dirty = True
         if name == "RunEnd":
             vals.add(int(e["obj"]))
-            snaps.append(dict(kind="runend", nf=int(e["nf"]), nx=int(e["nx"]), nruns=int(e["nruns"]) - 1, flag=int(e["flag"]), msg=e["msgc"], v=sorted(vals), m=dict(EMPTY_M)))
+            if snaps and snaps[-1]["kind"] == "state" and int(e["obj"]) not in snaps[-1]["v"]:
+                snaps[-1]["v"] = sorted(snaps[-1]["v"] + [int(e["obj"])])     # the objective of a mean that never entered a model (exit while sampling x0)
+            snaps.append(dict(kind="runend", rl=rl, nf=int(e["nf"]), nx=int(e["nx"]), nruns=int(e["nruns"]), flag=int(e["flag"]), msg=e["msgc"], v=sorted(vals), m=dict(EMPTY_M)))
             vals = set()
         elif name == "Return":
-            snaps.append(dict(kind="return", nf=int(e["nf"]), nx=int(e["nx"]), nruns=int(e["nruns"]), flag=int(e["flag"]), msg=e["msgc"], obj=int(e["obj"]), en=int(e["en"]),
+            snaps.append(dict(kind="return", rl=rl, nf=int(e["nf"]), nx=int(e["nx"]), nruns=int(e["nruns"]), flag=int(e["flag"]), msg=e["msgc"], obj=int(e["obj"]), en=int(e["en"]),
                               v=[], m=dict(EMPTY_M)))
     return snaps
+
+
+def _rho_levels(ev):
+    runs_red, cur = [], 0
+    for e in ev:
+        if e["ev"] == "RunBegin" or (e["ev"] == "SoftEnd" and e.get("ok")):
+            runs_red.append(cur)
+            cur = 0
+        elif e["ev"] == "ReduceRho":
+            cur += 1
+    runs_red.append(cur)
+    return max(runs_red) + 1
 
 
 def constants(inst, t, snaps):
     ev = t["ev"]
     up = inst.get("user_params") or {}
     rb = [e for e in ev if e["ev"] == "RunBegin"]
-    top = 0
-    for s in snaps:
-        for v in list(s["v"]) + list(s["m"]["obj"]):
-            if v > top and v < 10 ** 8:
-                top = v
+    top = int(t["top"]) - 1          # Dfols.tla: Inf == VMax + 1; the recorder codes +inf as its `top`
     ret = [e for e in ev if e["ev"] == "Return"][-1]
     small = "NoSmall"
     ends = [e for e in ev if e["ev"] == "RunEnd" and e["msgc"] == "small"]
     if ends:
         small = str(max(int(e["obj"]) for e in ends))
-    maxs = max([1] + [int(e["req"]) for e in ev if e["ev"] == "EvalBegin"] + [int(v) for e in ev if e["ev"] == "ModelInit" for v in e["m"]["ns"]])
+    maxs = max([1] + [int(e["req"]) for e in ev if e["ev"] == "EvalBegin"] + [int(v) for e in ev if e["ev"] == "ModelInit" for v in e["m"]["ns"]]
+               + [int(e["ret"]) for e in ev if e["ev"] == "NSamples"])
     restarts = inst.get("restarts")
     nred = sum(1 for e in ev if e["ev"] == "ReduceRho")
     nrest = len(rb) + sum(1 for e in ev if e["ev"] == "SoftEnd")
-    c = dict(MaxFun=int(inst.get("maxfun", 60)), NPT=int(rb[0]["npt"]), VMax=top + 1, Small=small, MaxSamples=maxs, WithInf=True,
-             UseRestarts=bool(restarts) or bool(inst.get("noiseflag")), SoftRestarts=(restarts in (None, "soft")), MaxUnsucc=int(inst.get("maxunsucc", up.get("restarts.max_unsuccessful_restarts", 10))),
-             NumGeom=3, MoveXk=True, UseOldRk=(restarts != "hardnew"), IncNpt=int(inst.get("incnpt") or 0), RhoLevels=nred + 2,
-             RhoendScaleDrop=1 if float(inst.get("rhoend_scale", 1.0)) < 1.0 else 0, MaxRuns=nrest + 3, NdirsInit=int(up.get("growing.ndirs_initial", 0) or 0), RhoDropAny=True,
-             WithNoise=bool(up.get("noise.quit_on_noise_level") or inst.get("noiseflag")), RegSteps=int(up.get("regression.num_extra_steps", 0) or 0), WithAuto=True, WithFalseSuccess=True)
+    c = dict(MaxFun=int(inst.get("maxfun", 60)), NPT=int(rb[0]["npt"]), VMax=top, Small=small, MaxSamples=maxs, WithInf=True,
+             UseRestarts=bool(restarts) or bool(inst.get("noise")), SoftRestarts=(restarts in (None, "soft")), MaxUnsucc=int(inst.get("maxunsucc", up.get("restarts.max_unsuccessful_restarts", 10))),
+             NumGeom=3, MoveXk=True, UseOldRk=(restarts != "hardnew"), IncNpt=int(inst.get("incnpt") or 0), RhoLevels=int(snaps[0].get("K", 0)) if False else _rho_levels(ev),
+             RhoendScaleDrop=1 if float(inst.get("rhoend_scale", 1.0)) < 1.0 else 0, MaxRuns=nrest + 3, NdirsInit=int(inst.get("growing") or up.get("growing.ndirs_initial", 0) or 0), RhoDropAny=True, NoisyObjective=not bool(t["cfg"]["det"]), WithHuge=True,
+             WithNoise=bool(up.get("noise.quit_on_noise_level") or inst.get("noise")), RegSteps=int(up.get("regression.num_extra_steps", 0) or 0), WithAuto=True, WithFalseSuccess=True)
     return c
 
 
@@ -131,11 +177,56 @@ def _cfg_text(c, invariants, max_silent):
     lines.append("  MaxSilent = %d" % max_silent)
     lines.append("  EvalVals <- TraceEvalVals")
     lines += ["INVARIANT %s" % i for i in invariants]
-    lines += ["CONSTRAINT Progress", "POSTCONDITION Post", "CHECK_DEADLOCK FALSE"]
+    lines += ["CONSTRAINT Progress", "VIEW CtlView", "POSTCONDITION Post", "CHECK_DEADLOCK FALSE"]
     return "\n".join(lines) + "\n"
 
 
+def conformance_part(prop, insts, traces, V, workdir, count):
+    """sample `count` recorded runs inside the modelled option space, check each against Dfols.tla; invariant failures on the behaviour found are
+    violations of the owning property, rejections are conformance notes (the specification does not describe the run)"""
+    import multiprocessing as mp
+    import shutil
+    byid = {i["id"]: i for i in insts}
+    cand = [t for t in traces if modelled(byid[t["id"]], t) is None and t["summary"]["nev"] <= 2500 and (t["cfg"].get("maxnpt") or 0) <= 7]
+    skipped = len(traces) - len(cand)
+    step = max(1, len(cand) // max(1, count))
+    sel = cand[::step][:count]
+    jobs = [(byid[t["id"]], t, os.path.join(workdir, "c%d" % t["id"])) for t in sel]
+    if not jobs:
+        return dict(control_conformance=dict(checked=0, accepted=0, rejected=0, outside_model=skipped))
+    with mp.get_context("fork").Pool(min(16, vlib.NCPU)) as pool:
+        res = pool.map(check_one, jobs, chunksize=1)
+    acc = [r for r in res if r.get("accepted")]
+    rej = [r for r in res if not r.get("skipped") and not r.get("accepted")]
+    for r in res:
+        for inv in r.get("violated") or []:
+            if INVARIANTS.get(inv) == prop:
+                V.report(dict(clause="ctl_" + inv, site="Dfols.tla", cls=sc_class(byid[r["id"]]), what="recorded run %d, followed in Dfols.tla with its own constants: invariant %s fails on the behaviour" % (r["id"], inv),
+                              instance=dict(kind="solver", inst=byid[r["id"]])))
+    for r in rej[:3]:
+        print("NOTE: Dfols.tla does not describe recorded run %d beyond snapshot %s of %s (conformance, not a %s verdict): next %s"
+              % (r["id"], r.get("reached"), r.get("total"), prop, json.dumps(r.get("next_snap"))[:300]))
+    for j in jobs:
+        shutil.rmtree(j[2], ignore_errors=True)
+    errs = [r["skipped"] for r in res if r.get("skipped")]
+    return dict(control_conformance=dict(checked=len(res), accepted=len(acc), rejected=len(rej), machinery_errors=errs[:5], rejected_ids=[r["id"] for r in rej][:10], outside_model=skipped,
+                                         snapshots=sum(r.get("total", 0) for r in acc), tlc_wall_max=round(max([r.get("wall", 0) for r in res] or [0]), 1),
+                                         invariants_evaluated=sorted(INVARIANTS)))
+
+
+def sc_class(inst):
+    from . import solverchecks as sc
+    return sc.cfg_class(inst)
+
+
 def check_one(args):
+    try:
+        return _check_one(args)
+    except Exception as e:  # noqa  (the conformance part is an addition to the property's own clauses: its failures are counted, never fatal)
+        return dict(id=args[1]["id"], skipped="conformance machinery: %s: %s" % (type(e).__name__, str(e)[:120]))
+
+
+def _check_one(args):
     """-> dict(id, accepted, reached, total, violated=[invariant names], skipped=reason-or-None, wall)"""
     inst, t, wd = args
     why = modelled(inst, t)
@@ -150,7 +241,7 @@ def check_one(args):
     cfg = os.path.join(wd, "DfolsCtl.cfg")
     with open(cfg, "w") as f:
         f.write(_cfg_text(c, list(INVARIANTS), 6))
-    r = vlib.run_tlc("DfolsCtl.tla", cfg, os.path.join(wd, "t"), workers=1, heap="2g", env={"TRACE_FILE": tf, "JAVA_TOOL_OPTIONS": "-Dtlc2.tool.queue.IStateQueue=StateDeque"}, timeout=600)
+    r = vlib.run_tlc("DfolsCtl.tla", cfg, os.path.join(wd, "t"), workers=1, heap="2g", env={"TRACE_FILE": tf, "JAVA_TOOL_OPTIONS": "-Dtlc2.tool.queue.IStateQueue=StateDeque"}, timeout=300)
     m = re.search(r'<<\s*"CTL",\s*(-?\d+),\s*(\d+),\s*(\d+)\s*>>', r["out"])
     reached, total = (int(m.group(2)), int(m.group(3))) if m else (-1, len(snaps))
     return dict(id=t["id"], skipped=None, accepted=bool(m) and reached == total, reached=reached, total=total, violated=[v for v in r["violated"] if v in INVARIANTS],
